@@ -101,11 +101,10 @@ def grid(tier):
             for fwi in fwis:
                 for ci in idx:
                     for ri in idx:
-                        # thorough: for FWI 10 and 11 the lengths n-1 and 2n
-                        # stay at 2 deviations (evenly thinned to fit the
-                        # time budget; stated in the evidence)
-                        thin = fwi in (10, 11) and (ci in (1, 4) or
-                                                    ri in (1, 4))
+                        # thorough: configurations with a length n-1 or 2n
+                        # stay at 2 deviations (grid thinned evenly to fit
+                        # the time budget; stated in the evidence)
+                        thin = ci in (1, 4) or ri in (1, 4)
                         cfgs.append(dict(part='main', kind=kind, fsci=fsci,
                                          fwi=fwi, cl=ls[ci], rl=ls[ri],
                                          dev='std', k=2 if thin else k))
@@ -463,8 +462,9 @@ def main(tier='quick', seed=0, part=None):
                            sorted(set(c['fwi'] for c in main_cfgs))},
             lengths="cmd, rsp in {1, n-1, n, n+1, 2n, 2n+1}, n = FSC-3"
                     + ("" if tier == 'quick' else
-                       "; for FWI 10 and 11 the configurations with a "
-                       "length n-1 or 2n are explored to 2 deviations only"),
+                       "; configurations with a length n-1 or 2n are "
+                       "explored to 2 deviations only, the others "
+                       "({1, n, n+1, 2n+1} squared) to 3"),
             configurations_by_deviation_bound={
                 str(k): sum(1 for c in main_cfgs if c['k'] == k)
                 for k in sorted(set(c['k'] for c in main_cfgs))},
